@@ -111,6 +111,56 @@ def C01_frame_pickle(n1: int, n2: int, two: bool, c1: int, c2: int) -> bool:
   return _frame_pickle(real_protocols, n1, n2, two, c1, c2)
 
 
+def _frame_paused(mod, line, nf, pause_at, cut, late):
+  """Back-pressure in the middle of a segment: the handler of item `pause_at` pauses the receiver (what
+  the cacheFull / queue-full signal does), the resume comes after the segment has been consumed (late:
+  after the whole stream).  Everything that had arrived must have been delivered once the receiver
+  has been resumed, without a further byte from the client."""
+  if line:
+    payloads = [bytes([TAGS[i % len(TAGS)], 0x61 + i]) for i in range(nf)]
+    stream = b''.join(x + b'\n' for x in payloads)
+    p = make_receiver(mod.MetricLineReceiver)
+  else:
+    payloads = [bytes([TAGS[(i + 2) % len(TAGS)]] * (i % 3)) for i in range(nf)]
+    stream = b''.join(struct.pack('!I', len(x)) + x for x in payloads)
+    p = make_receiver(mod.MetricPickleReceiver)
+  if not (0 <= cut <= len(stream)):
+    return True
+  got = []
+
+  def handler(item):
+    got.append(item)
+    if len(got) == pause_at + 1:
+      cover('paused_mid_segment')
+      p.pauseReceiving()
+
+  if line:
+    p.lineReceived = handler
+  else:
+    p.stringReceived = handler
+  try:
+    p.dataReceived(stream[:cut])
+    if not late and p.transport.paused:
+      p.resumeReceiving()
+    p.dataReceived(stream[cut:])
+    if p.transport.paused > p.transport.resumed:
+      p.resumeReceiving()
+  finally:
+    drop_receiver(p)
+  if got != payloads:
+    raise AssertionError('items that had arrived before the pause were not all delivered after the resume: %d of %d' % (len(got), len(payloads)))
+  return not p.transport.disconnecting
+
+
+def C01_frame_paused(line: bool, nf: int, pause_at: int, cut: int, late: bool) -> bool:
+  """
+  pre: 1 <= nf <= 3 and 0 <= pause_at < nf
+  pre: 0 <= cut <= 18
+  post: __return__
+  """
+  return _frame_paused(real_protocols, line, nf, pause_at, cut, late)
+
+
 # ---- parsing: symbolic metric name, numeric text from a boundary table ---------------------------------
 NAMES = ['a', 'é', 'a.b', '\U0001F600x', 'x;t=v', 'ünï.cödé', 'a/b', 'nb']
 NUMS = ['0', '1', '42', '1.5', '-2.25', '1e3', '+7', '1E-12', '1e308', '1.7976931348623157e+308', '5e-324',
@@ -325,6 +375,10 @@ HARNESSES = [
     thorough=dict(timeout=900, shards=[('one', 'not two')] + [('two_%d%d' % (a, b), 'two and n1 == %d and n2 == %d' % (a, b)) for a in range(4) for b in range(4)]), covers=['framed'],
     encodes=['carbon.protocols:MetricPickleReceiver + twisted Int32StringReceiver.dataReceived'],
     assumptions=_ASSUME + ['1-2 frames with payload lengths 0..3, two cut positions anywhere in the stream incl. inside the 4-byte length prefix']),
+  H('C01_frame_paused', quick=dict(timeout=200, shards=[('line', 'line'), ('pickle', 'not line')]), covers=['paused_mid_segment'],
+    encodes=['carbon.protocols:MetricReceiver.pauseReceiving / resumeReceiving', 'twisted Int32StringReceiver / LineOnlyReceiver.dataReceived'],
+    assumptions=_ASSUME + ['1-3 frames / lines, one cut anywhere, the receiver is paused from inside the handler of a symbolic item and resumed after the '
+                           'segment (or after the stream); no further bytes arrive afterwards']),
   H('C01_parse', quick=dict(timeout=280, shards=[('line', 'not udp and second == 0'), ('udp1', 'udp and second <= 2')],
                             extra_pre=['len(metric) == 1', 'vi == 3 and ti == 8', 'lead == 0']),
     thorough=dict(timeout=900, shards=[('line', 'not udp and second == 0'), ('udp1', 'udp and second <= 2'), ('udp2', 'udp and second >= 3')]),
